@@ -1033,6 +1033,13 @@ func (c *Client) DialToSMTPClientWithContext(ctxDial context.Context) (*smtp.Cli
 		return nil, err
 	}
 
+	// The dial context only covers establishing the connection. Arm a deadline on the connection
+	// itself, so that a server which stops responding during the greeting, EHLO/HELO, STARTTLS
+	// (including the TLS handshake) or SMTP AUTH cannot block the dial-up forever.
+	if deadline, ok := ctx.Deadline(); ok {
+		_ = connection.SetDeadline(deadline)
+	}
+
 	client, err := smtp.NewClient(connection, c.host)
 	if err != nil {
 		return nil, err
@@ -1063,6 +1070,9 @@ func (c *Client) DialToSMTPClientWithContext(ctxDial context.Context) (*smtp.Cli
 		_ = client.Close()
 		return nil, err
 	}
+
+	// The dial-up is complete. Clear the deadline again, the send methods arm their own one.
+	_ = connection.SetDeadline(time.Time{})
 
 	return client, nil
 }
